@@ -38,9 +38,10 @@ type c20Obs struct {
 	closeCalled bool
 	live        int // harness threads still running
 	tornDown    bool
-	finalBefore string // readyState when the harness threads were done, before the teardown closed the connection
-	lateOpens   int    // runs of an OnOpen handler registered after the channel was created (one registration)
-	lateCloses  int    // same for OnClose
+	finalBefore string       // readyState when the harness threads were done, before the teardown closed the connection
+	lateOpens   int          // runs of an OnOpen handler registered after the channel was created (one registration)
+	lateCloses  int          // same for OnClose
+	second      *DataChannel // two-channel scenarios: the channel created after o.d
 }
 
 // env starts an environment thread: it waits for cond (or for the teardown) and then performs the event.
@@ -91,6 +92,7 @@ var c20Names = []string{
 	"connect||pcClose",
 	"late:OnOpen||ack",
 	"late:OnClose||Close+peerreset",
+	"open:two-channels:second-closed-while-connecting,first-Close+peerreset",
 }
 
 func c20Body(t *testing.T, name string) (func(), *c20Obs) {
@@ -121,6 +123,16 @@ func c20Body(t *testing.T, name string) (func(), *c20Obs) {
 			if err := vfConnectSCTP(x); err != nil {
 				vkit.Fatalf(t, "connect: %v", err)
 			}
+		}
+		if strings.Contains(name, "two-channels") {
+			// a SECOND channel, created after the first and closed while it is still connecting (no transport yet):
+			// it stays closing until the connection's own Close moves it on
+			second, err := x.CreateDataChannel("second", nil)
+			if err != nil {
+				vkit.Fatalf(t, "dc: %v", err)
+			}
+			o.second = second
+			_ = second.Close()
 		}
 		preOpen := strings.HasPrefix(name, "open:")
 		if preOpen || strings.HasPrefix(name, "remote-open") {
@@ -185,6 +197,9 @@ func c20Body(t *testing.T, name string) (func(), *c20Obs) {
 		case "open:pcClose||Close":
 			o.goT("pcclose", func() { o.closeCalled = true; _ = x.Close() })
 			closeT("closer", d, false)
+		case "open:two-channels:second-closed-while-connecting,first-Close+peerreset":
+			closeT("closer", d, false)
+			peerResetAfterClose(d)
 		case "open:Close||Close":
 			closeT("closer1", d, false)
 			closeT("closer2", d, false)
@@ -307,6 +322,10 @@ func c20Judge(name string, o *c20Obs, r *vsched.Result) (string, string) {
 		}
 	}
 	// "Once Close has been called and the transport is gone, it ends in closed."
+	if o.second != nil && o.second.ReadyState() != DataChannelStateClosed {
+		return "not-closed-at-end|second-channel|" + o.second.ReadyState().String(),
+			fmt.Sprintf("scenario %s: the second channel was closed while connecting and the connection is closed, but its readyState is %s", name, o.second.ReadyState())
+	}
 	ch := o.d
 	if ch == nil {
 		ch = o.remote
